@@ -83,8 +83,7 @@ static int vl_elementAt(KSI_LIST(KSI_AggregationHashChain) *l, size_t pos, KSI_A
 	__CPROVER_assert(l == &g_vr_chainlist && o != NULL, "chain list: the signature's list is asked");
 	__CPROVER_assert(!g_vl_fail && !g_vl_na, "protocol: no chain is fetched after the verdict is determined");
 	__CPROVER_assert(pos == g_vl_calls && pos < g_vl_n, "protocol: every chain once, first to last");
-	cur->ctx = VR_CTX; cur->ref = 1; cur->inputData = NULL; cur->chain = NULL; cur->chainIndex = NULL;
-	cur->aggregationTime = NULL; cur->aggrHashId = NULL; cur->inputHash = NULL;
+	/* only the fields the rule of the mode may look at are rewritten per fetch (typed, cheap loop havoc); the rest is set once in vl_world_init */
 #if defined(VL_MODE_TIME)
 	/* INT-02: all chains carry one aggregation time */
 	g_vl_time[s].value = nondet_ull(); g_vl_time[s].ref = 1;
@@ -137,6 +136,8 @@ static void vl_world_init(void) {
 	g_vl_rfc_ret = nondet_int();
 	g_vi_calls = 0; g_vi_prev_fetched = 0;
 	g_vl_level = 0; g_vl_aggs = 0;
+	memset(&g_vl_c[0], 0, sizeof(g_vl_c[0])); memset(&g_vl_c[1], 0, sizeof(g_vl_c[1]));
+	g_vl_c[0].ctx = VR_CTX; g_vl_c[0].ref = 1; g_vl_c[1].ctx = VR_CTX; g_vl_c[1].ref = 1;
 #if defined(VL_MODE_SHAPE) || defined(VL_MODE_IDX)
 	memset(&g_vl_il[0], 0, sizeof(g_vl_il[0])); memset(&g_vl_il[1], 0, sizeof(g_vl_il[1]));
 	g_vl_il[0].length = vl_il_length; g_vl_il[0].elementAt = vl_il_elementAt;
